@@ -79,6 +79,11 @@ func Build[G any](options ...Option) (parser *Parser[G], err error) {
 	}
 
 	symbols := p.lex.Symbols()
+	for _, elide := range p.elide {
+		if _, ok := symbols[elide]; !ok {
+			return nil, fmt.Errorf("Elide() uses unknown token %q", elide)
+		}
+	}
 	if len(p.mappers) > 0 {
 		mappers := map[lexer.TokenType][]Mapper{}
 		for _, mapper := range p.mappers {
